@@ -34,6 +34,14 @@ TEXT = {
          "Liveness <>(stack = <<>>) and the stack bound hold for every graph of the universe on the Ideal layer and TLC refutes the listed deviation with the one-setting witness; on the code every world's reads run in child processes (4 MB stack, deadline) so 'did not return' is an observation; cyclic errors must appear exactly where the specification says a name is re-entered."),
  "C03": ("conv", "TLA+ decision table for numeric conversions over abstract boundary numbers (UcfgConvert): TLC checks 'no third outcome'; exhaustive replay at every type boundary through five routes with math/big exactness; random bit patterns trace-validated",
          "The table (negative check on the original value, truncation toward zero, range check on the truncated value, NaN/Inf never into integers or durations, seconds*1e9 must fit int64, text must parse) is checked by TLC to yield only Err or the exact value and to be violated by the two repaired deviations; every (source kind, boundary point, target) is executed on the code and the stored value compared with the exact rational; 20k-500k random values are classified by the driver and validated by TLC."),
+ "C04": ("reify", "TLA+ transcription of typed Unpack with validators (UcfgReify) + an INDEPENDENT predicate Valid(result) checked by TLC (UnpackOk => Valid); exhaustive replay of type x validator x default x config",
+         "TLC checks on every case of the universe that a successful Unpack yields a value satisfying the declarative validity predicate (stated on the result only) and refutes the repaired deviation; every case is executed on the code with reflect.StructOf targets and outcome, values and error path compared."),
+ "C13": ("reify", "TLA+ typed Unpack returning the COMPLETE new field values (frame condition part of every expectation) + Frame invariant; replay with the target inspected after failure (atomicity)",
+         "Every expectation lists G, F and H after the call, so untouched fields are compared in every case; failures are injected at G, F and H (H after F was written to the working copy) and the harness requires the struct passed in to hold its previous field values, slice headers, map and pointer identities."),
+ "C14": ("reify", "TLA+ typed Unpack whose errors are paths of the offending setting (sets where map order decides) + ErrNamesSetting invariant; replay comparing ucfg.Error, Reason, Class and the quoted path",
+         "The specification's Err(path) is compared with the last quoted path of the real message for faults at every position of the universe (wrong type, unparsable text, failed validator, failing default, failing element of a list or map, nested struct); the error must be a ucfg.Error with non-nil Reason and Class; TLC refutes the two repaired deviations."),
+ "C06": ("pack", "TLA+ Pack (typed value -> config tree) and RoundTrip; TLC identity invariant over all well-formed two-field struct types x values; replay with a generic reflect type builder comparing packed tree and round-tripped value",
+         "Gen_Pack enumerates struct types from a descriptor grammar with tags (rename, dotted, inline, ignore) and extreme values; the harness builds the real types with reflect, merges the value into an empty config, compares the generic view with Pack's tree, unpacks into a zero value and compares modulo nil~empty; the listed finding (inline map next to named fields) is modelled as a deviation with its exact outcome."),
 }
 NOTE = "bounded universes (stated in evidence.rule); projection through the public API; TLC/JVM/Go runtime trusted; Ideal layer + named deviations listed in known_findings.json"
 
@@ -47,6 +55,10 @@ m = dict(
                source_commits=[], add_only=True),
     
     engines=[
+        dict(name="reify", path="spec/UcfgReify.tla", serves_properties=["C04", "C13", "C14"],
+             kind_free_text="TLA+ typed Unpack with validators, defaults, frame and error paths; Gen_Reify; harness/cmd/ucfgconf/fam_reify.go"),
+        dict(name="pack", path="spec/UcfgPack.tla", serves_properties=["C06"],
+             kind_free_text="TLA+ Pack/RoundTrip over type descriptors; Gen_Pack; harness/cmd/ucfgconf/fam_pack.go (reflect type builder)"),
         dict(name="conv", path="spec/UcfgConvert.tla", serves_properties=["C03"],
              kind_free_text="TLA+ decision table over named numeric boundaries; Gen_Convert/Trace_Convert; harness/cmd/ucfgconf/fam_conv.go (math/big concretisation)"),
         dict(name="varexp", path="spec/UcfgVarExp.tla", serves_properties=["C02", "C08", "C11"],
